@@ -275,4 +275,30 @@ Section HandleFacts.
     intros H Hn. apply handle_opened in H as [[H _]|[p' [tc [Ho [Hs _]]]]]; [discriminate|].
     inversion Ho; subst p'. subst res. unfold serve. destruct Hn as [->|[->|[->| ->]]]; reflexivity.
   Qed.
+  (* the remaining answers of open(): PermissionError on a directory -> not found, on anything else -> forbidden,
+     every other OSError is the result of the request (never swallowed, never turned into content) *)
+  Theorem open_errors old c r x log p res :
+    handle old T FS GD fs_open c r x = (log, [p], res) ->
+    (fs_open p = FsEACCES_DIR -> res = RNotFound) /\
+    (fs_open p = FsEACCES -> res = RForbidden) /\
+    (fs_open p = FsEOTHER -> res = RError).
+  Proof.
+    intros H. apply handle_opened in H as [[H _]|[p' [tc [Ho [Hs _]]]]]; [discriminate|].
+    inversion Ho; subst p'. subst res. unfold serve. repeat split; intros ->; reflexivity.
+  Qed.
 End HandleFacts.
+
+(* ---------- the "extra sure" re-checks of _translate_path never fire ---------- *)
+(* `if not extra_path_segments: return None` *)
+Theorem segments_never_empty (e : str) : e <> [] -> ends_with [SL] e = false ->
+  drop_empty (split_on SL e) <> [].
+Proof.
+  intros Hne He. destruct (split_last_nonempty e Hne He) as [init [x [Hs Hx]]].
+  destruct (drop_empty_app_last init x Hx) as [l' [Hd _]]. rewrite Hs, Hd. destruct l'; discriminate.
+Qed.
+
+(* `if not fs_path.startswith(self._root_dir): return None` *)
+Theorem prefix_check_never_rejects c e p : spec_path c e = Some p -> starts_with (c_target c) p = true.
+Proof.
+  intros H. apply spec_path_some in H as [segs [_ [-> _]]]. apply starts_with_app.
+Qed.
